@@ -1,4 +1,4 @@
-\* generation, deep single-account histories: one account, 3 candidates (c2, c3 twins), one parameter vote, no names, 5 transactions, 7 heights
+\* generation, deep single-account histories: one account, 3 candidates (c2, c3 twins), one parameter vote, no names, 5 transactions, 6 heights
 SPECIFICATION Spec
 CONSTANTS
   Accts <- A1
@@ -16,7 +16,7 @@ CONSTANTS
   DefaultParam <- Defaults
   StakingDelay = 2
   VotingDelay = 2
-  MaxHeight = 7
+  MaxHeight = 6
   MaxDiscards = 0
   MaxOps = 5
 VIEW viewAbs
